@@ -56,6 +56,15 @@ def validate_sessions(ck, trace, parts, describe, label, retry_kind=None):
     log("%s: %d sessions validated (%d outside the claim) in %.1fs" % (label, total, skipped, time.time() - t0))
     if total and skipped > 0.8 * total:
         raise ToolError("vacuity: %d of %d sessions of %s are outside the claim" % (skipped, total, label))
+    if len(timed) > 12:
+        # many sessions ran into the time limit: repeat a few with a generous limit; if those still fail
+        # the others are reported as they are (a hang of the tool is a violation, and repeating hundreds
+        # of hanging sessions would take hours)
+        probe, rest = timed[:6], timed[6:]
+        before = len(ck.violations) + len(ck.known_hits)
+        timed = probe
+    else:
+        rest, before = [], None
     if timed:
         work = tmpdir("retry_%s_%s" % (retry_kind, label))
         cpath = os.path.join(work, "cases.json")
@@ -70,6 +79,12 @@ def validate_sessions(ck, trace, parts, describe, label, retry_kind=None):
         finally:
             os.environ.pop("HV_SLOW", None)
         ck.cov["vacuity"][label + "_timeouts_retried"] = len(timed)
+        if rest:
+            if len(ck.violations) + len(ck.known_hits) > before:
+                for e in rest:
+                    ck.violation("%s %s" % (label, describe(e)), {"kind": e["ev"], "event": e, "expected": None})
+            else:
+                raise ToolError("%d sessions of %s timed out although repeated ones pass: the machine is too loaded to judge" % (len(rest), label))
 
 
 def script_str(script):
